@@ -114,131 +114,16 @@ def Plane3.intersectT {α : Type} [Add α] [Sub α] [Mul α] [Div α] [Neg α] [
   else
     (true, ((-((((pl.normal.x * l.pos.x) + (pl.normal.y * l.pos.y)) + (pl.normal.z * l.pos.z)) - pl.distance)) / t808))
 
-/-- extracted from the C++ template at T = Sym; 8 path(s) -/
-def Plane3.mulM44 {α : Type} [Add α] [Sub α] [Mul α] [Div α] [Neg α] [LT α] [LE α] [DecidableLT α] [DecidableLE α] [DecidableEq α] [OfNat α 0] [OfNat α 1] [OfNat α 2] (tmin : α) (sqrt : α → α) (pl : Plane3 α) (m : M44 α) : (Plane3 α) :=
-  let t839 := ((0 : α) * pl.normal.x)
-  let t840 := ((1 : α) * pl.normal.y)
-  let t841 := (t840 - t839)
-  let t842 := ((1 : α) * pl.normal.z)
-  let t843 := (t839 - t842)
-  let t844 := ((0 : α) * pl.normal.y)
-  let t845 := ((0 : α) * pl.normal.z)
-  let t846 := (t845 - t844)
-  let t851 := (((t846 * t846) + (t843 * t843)) + (t841 * t841))
-  let t852 := ((1 : α) * pl.normal.x)
-  let t853 := (t844 - t852)
-  let t854 := (t839 - t845)
-  let t855 := (t842 - t844)
-  let t860 := (((t855 * t855) + (t854 * t854)) + (t853 * t853))
-  let t861 := (t844 - t839)
-  let t862 := (t852 - t845)
-  let t863 := (t845 - t840)
-  let t868 := (((t863 * t863) + (t862 * t862)) + (t861 * t861))
-  let t878 := (pl.distance * pl.normal.z)
-  let t879 := (pl.distance * pl.normal.y)
-  let t880 := (pl.distance * pl.normal.x)
-  let t881 := (t878 + t861)
-  let t882 := (t879 + t862)
-  let t883 := (t880 + t863)
-  let t907 := ((((t883 * m.x03) + (t882 * m.x13)) + (t881 * m.x23)) + m.x33)
-  let t911 := (t878 + ((t863 * pl.normal.y) - (t862 * pl.normal.x)))
-  let t912 := (t879 + ((t861 * pl.normal.x) - (t863 * pl.normal.z)))
-  let t913 := (t880 + ((t862 * pl.normal.z) - (t861 * pl.normal.y)))
-  let t937 := ((((t913 * m.x03) + (t912 * m.x13)) + (t911 * m.x23)) + m.x33)
-  let t964 := ((((t880 * m.x03) + (t879 * m.x13)) + (t878 * m.x23)) + m.x33)
-  let t965 := (((((t880 * m.x02) + (t879 * m.x12)) + (t878 * m.x22)) + m.x32) / t964)
-  let t966 := (((((t880 * m.x01) + (t879 * m.x11)) + (t878 * m.x21)) + m.x31) / t964)
-  let t967 := (((((t880 * m.x00) + (t879 * m.x10)) + (t878 * m.x20)) + m.x30) / t964)
-  let t968 := ((((((t883 * m.x02) + (t882 * m.x12)) + (t881 * m.x22)) + m.x32) / t907) - t965)
-  let t969 := ((((((t883 * m.x01) + (t882 * m.x11)) + (t881 * m.x21)) + m.x31) / t907) - t966)
-  let t970 := ((((((t883 * m.x00) + (t882 * m.x10)) + (t881 * m.x20)) + m.x30) / t907) - t967)
-  let t971 := ((((((t913 * m.x02) + (t912 * m.x12)) + (t911 * m.x22)) + m.x32) / t937) - t965)
-  let t972 := ((((((t913 * m.x01) + (t912 * m.x11)) + (t911 * m.x21)) + m.x31) / t937) - t966)
-  let t973 := ((((((t913 * m.x00) + (t912 * m.x10)) + (t911 * m.x20)) + m.x30) / t937) - t967)
-  let t976 := ((t973 * t969) - (t972 * t970))
-  let t979 := ((t971 * t970) - (t973 * t968))
-  let t982 := ((t972 * t968) - (t971 * t969))
-  let t983 := (V3.length tmin sqrt ⟨t982, t979, t976⟩)
-  let t988 := (((t982 * t967) + (t979 * t966)) + (t976 * t965))
-  let t989 := (t982 / t983)
-  let t990 := (t979 / t983)
-  let t991 := (t976 / t983)
-  let t996 := (((t989 * t967) + (t990 * t966)) + (t991 * t965))
-  let t1006 := (t878 + t853)
-  let t1007 := (t879 + t854)
-  let t1008 := (t880 + t855)
-  let t1032 := ((((t1008 * m.x03) + (t1007 * m.x13)) + (t1006 * m.x23)) + m.x33)
-  let t1036 := (t878 + ((t855 * pl.normal.y) - (t854 * pl.normal.x)))
-  let t1037 := (t879 + ((t853 * pl.normal.x) - (t855 * pl.normal.z)))
-  let t1038 := (t880 + ((t854 * pl.normal.z) - (t853 * pl.normal.y)))
-  let t1062 := ((((t1038 * m.x03) + (t1037 * m.x13)) + (t1036 * m.x23)) + m.x33)
-  let t1066 := ((((((t1008 * m.x02) + (t1007 * m.x12)) + (t1006 * m.x22)) + m.x32) / t1032) - t965)
-  let t1067 := ((((((t1008 * m.x01) + (t1007 * m.x11)) + (t1006 * m.x21)) + m.x31) / t1032) - t966)
-  let t1068 := ((((((t1008 * m.x00) + (t1007 * m.x10)) + (t1006 * m.x20)) + m.x30) / t1032) - t967)
-  let t1069 := ((((((t1038 * m.x02) + (t1037 * m.x12)) + (t1036 * m.x22)) + m.x32) / t1062) - t965)
-  let t1070 := ((((((t1038 * m.x01) + (t1037 * m.x11)) + (t1036 * m.x21)) + m.x31) / t1062) - t966)
-  let t1071 := ((((((t1038 * m.x00) + (t1037 * m.x10)) + (t1036 * m.x20)) + m.x30) / t1062) - t967)
-  let t1074 := ((t1071 * t1067) - (t1070 * t1068))
-  let t1077 := ((t1069 * t1068) - (t1071 * t1066))
-  let t1080 := ((t1070 * t1066) - (t1069 * t1067))
-  let t1081 := (V3.length tmin sqrt ⟨t1080, t1077, t1074⟩)
-  let t1087 := (t1080 / t1081)
-  let t1088 := (t1077 / t1081)
-  let t1089 := (t1074 / t1081)
-  let t1104 := (t878 + t841)
-  let t1105 := (t879 + t843)
-  let t1106 := (t880 + t846)
-  let t1130 := ((((t1106 * m.x03) + (t1105 * m.x13)) + (t1104 * m.x23)) + m.x33)
-  let t1134 := (t878 + ((t846 * pl.normal.y) - (t843 * pl.normal.x)))
-  let t1135 := (t879 + ((t841 * pl.normal.x) - (t846 * pl.normal.z)))
-  let t1136 := (t880 + ((t843 * pl.normal.z) - (t841 * pl.normal.y)))
-  let t1160 := ((((t1136 * m.x03) + (t1135 * m.x13)) + (t1134 * m.x23)) + m.x33)
-  let t1164 := ((((((t1106 * m.x02) + (t1105 * m.x12)) + (t1104 * m.x22)) + m.x32) / t1130) - t965)
-  let t1165 := ((((((t1106 * m.x01) + (t1105 * m.x11)) + (t1104 * m.x21)) + m.x31) / t1130) - t966)
-  let t1166 := ((((((t1106 * m.x00) + (t1105 * m.x10)) + (t1104 * m.x20)) + m.x30) / t1130) - t967)
-  let t1167 := ((((((t1136 * m.x02) + (t1135 * m.x12)) + (t1134 * m.x22)) + m.x32) / t1160) - t965)
-  let t1168 := ((((((t1136 * m.x01) + (t1135 * m.x11)) + (t1134 * m.x21)) + m.x31) / t1160) - t966)
-  let t1169 := ((((((t1136 * m.x00) + (t1135 * m.x10)) + (t1134 * m.x20)) + m.x30) / t1160) - t967)
-  let t1172 := ((t1169 * t1165) - (t1168 * t1166))
-  let t1175 := ((t1167 * t1166) - (t1169 * t1164))
-  let t1178 := ((t1168 * t1164) - (t1167 * t1165))
-  let t1179 := (V3.length tmin sqrt ⟨t1178, t1175, t1172⟩)
-  let t1185 := (t1178 / t1179)
-  let t1186 := (t1175 / t1179)
-  let t1187 := (t1172 / t1179)
-  if t851 < t860 then
-    if t860 < t868 then
-      if t983 = (0 : α) then
-        ⟨⟨t982, t979, t976⟩, t988⟩
-      else
-        ⟨⟨t989, t990, t991⟩, t996⟩
-    else
-      if t1081 = (0 : α) then
-        ⟨⟨t1080, t1077, t1074⟩, (((t1080 * t967) + (t1077 * t966)) + (t1074 * t965))⟩
-      else
-        ⟨⟨t1087, t1088, t1089⟩, (((t1087 * t967) + (t1088 * t966)) + (t1089 * t965))⟩
-  else
-    if t851 < t868 then
-      if t983 = (0 : α) then
-        ⟨⟨t982, t979, t976⟩, t988⟩
-      else
-        ⟨⟨t989, t990, t991⟩, t996⟩
-    else
-      if t1179 = (0 : α) then
-        ⟨⟨t1178, t1175, t1172⟩, (((t1178 * t967) + (t1175 * t966)) + (t1172 * t965))⟩
-      else
-        ⟨⟨t1185, t1186, t1187⟩, (((t1185 * t967) + (t1186 * t966)) + (t1187 * t965))⟩
-
 /-- extracted from the C++ template at T = Sym; 2 path(s) -/
 def Plane3.neg {α : Type} [Add α] [Mul α] [Div α] [Neg α] [LT α] [LE α] [DecidableLT α] [DecidableLE α] [DecidableEq α] [OfNat α 0] [OfNat α 2] (tmin : α) (sqrt : α → α) (pl : Plane3 α) : (Plane3 α) :=
-  let t1193 := (-pl.distance)
-  let t1194 := (-pl.normal.z)
-  let t1195 := (-pl.normal.y)
-  let t1196 := (-pl.normal.x)
-  let t1197 := (V3.length tmin sqrt ⟨t1196, t1195, t1194⟩)
-  if t1197 = (0 : α) then
-    ⟨⟨t1196, t1195, t1194⟩, t1193⟩
+  let t823 := (-pl.distance)
+  let t824 := (-pl.normal.z)
+  let t825 := (-pl.normal.y)
+  let t826 := (-pl.normal.x)
+  let t827 := (V3.length tmin sqrt ⟨t826, t825, t824⟩)
+  if t827 = (0 : α) then
+    ⟨⟨t826, t825, t824⟩, t823⟩
   else
-    ⟨⟨(t1196 / t1197), (t1195 / t1197), (t1194 / t1197)⟩, t1193⟩
+    ⟨⟨(t826 / t827), (t825 / t827), (t824 / t827)⟩, t823⟩
 
 end ImathVerif.Gen
